@@ -328,3 +328,78 @@ func genServerWiring(b *strings.Builder) error {
 	b.WriteString("\n")
 	return nil
 }
+
+// ---- settings table of serverApp (cmd/ps3netsrv-go/server.go struct tags) ----
+
+func kebab(name string) string {
+	// kong's default flag naming: words split at lower->upper and at the end of an acronym
+	var out []rune
+	rs := []rune(name)
+	for i, r := range rs {
+		upper := r >= 'A' && r <= 'Z'
+		if upper && i > 0 {
+			prevLower := rs[i-1] >= 'a' && rs[i-1] <= 'z'
+			nextLower := i+1 < len(rs) && rs[i+1] >= 'a' && rs[i+1] <= 'z'
+			prevUpper := rs[i-1] >= 'A' && rs[i-1] <= 'Z'
+			if prevLower || (prevUpper && nextLower) {
+				out = append(out, '-')
+			}
+		}
+		if upper {
+			r = r - 'A' + 'a'
+		}
+		out = append(out, r)
+	}
+	return string(out)
+}
+
+type serverSetting struct{ Flag, Env, Default, Type string }
+
+func readServerSettings() ([]serverSetting, error) {
+	path := filepath.Join(repoDir(), "cmd", "ps3netsrv-go", "server.go")
+	fset := token.NewFileSet()
+	f, err := parser.ParseFile(fset, path, nil, 0)
+	if err != nil {
+		return nil, err
+	}
+	var out []serverSetting
+	ast.Inspect(f, func(n ast.Node) bool {
+		ts, ok := n.(*ast.TypeSpec)
+		if !ok || ts.Name.Name != "serverApp" {
+			return true
+		}
+		st, ok := ts.Type.(*ast.StructType)
+		if !ok {
+			return true
+		}
+		for _, fld := range st.Fields.List {
+			if fld.Tag == nil || len(fld.Names) == 0 {
+				continue
+			}
+			tag, _ := strconv.Unquote(fld.Tag.Value)
+			stag := reflect.StructTag(tag)
+			out = append(out, serverSetting{Flag: kebab(fld.Names[0].Name), Env: stag.Get("env"), Default: stag.Get("default"), Type: stag.Get("type")})
+		}
+		return false
+	})
+	if len(out) == 0 {
+		return nil, fmt.Errorf("genconsts: serverApp not found in %s", path)
+	}
+	return out, nil
+}
+
+func init() {
+	constGenerators = append(constGenerators, func(b *strings.Builder) error {
+		ss, err := readServerSettings()
+		if err != nil {
+			return err
+		}
+		b.WriteString("(* cmd/ps3netsrv-go/server.go: settings of serverApp from its struct tags: (flag name, (env name, default)) *)\n")
+		var items []string
+		for _, s := range ss {
+			items = append(items, fmt.Sprintf("(%s, (%s, %s))", coqBytes([]byte(s.Flag)), coqBytes([]byte(s.Env)), coqBytes([]byte(s.Default))))
+		}
+		fmt.Fprintf(b, "Definition server_settings : list (list Z * (list Z * list Z)) := [%s].\n\n", strings.Join(items, ";\n  "))
+		return nil
+	})
+}
